@@ -37,6 +37,9 @@ func TestC04(t *testing.T) {
 		for i := 0; i < n; i++ {
 			b.Method(fmt.Sprintf("M%d", i), o.MaxDepth)
 		}
+		if o.SkipCopy && b.Conv.Settings.SkipCopy && rapid.IntRange(0, 2).Draw(rt, "pointer-twin") == 0 {
+			b.PointerTwin("Twin")
+		}
 		b.Conv.Settings.EnumOff = true
 		b.Finish()
 		if k := b.Labels["excluded:F-SKIPCOPY-INTERIOR-PTR"]; k > 0 {
@@ -56,6 +59,8 @@ func TestC04(t *testing.T) {
 
 var reOverlap = regexp.MustCompile(`source (?:backing array|pointee) (\S+) \[[^)]*\) overlaps result pointee (\S+) `)
 
+var reNamedPointee = regexp.MustCompile(`^\*?[A-Za-z_]\w*\.[A-Za-z_]\w*$`)
+
 // c04Features classifies an alias violation: the known interior-pointer finding needs
 // skipCopySameType and a result pointer that points *into* a source object of another
 // type (&source.F, &source[i]); anything else is a different violation.
@@ -65,6 +70,11 @@ func c04Features(c runCase, v runVerdict) []string {
 	}
 	m := reOverlap.FindStringSubmatch(v.Msg)
 	if m == nil || m[1] == m[2] {
+		return nil
+	}
+	if reNamedPointee.MatchString(m[2]) {
+		// the finding is about unnamed T (&source.F for F []string -> *[]string); a pointer to a
+		// named type is built by a generated method from a copy
 		return nil
 	}
 	return []string{"skipcopy-interior-ptr"}
